@@ -186,7 +186,7 @@ def _execute(program, stats, hist):
     for op in program["ops"]:
         seq = hist.seq
         if op.get("fault") == "aborted_fit":
-            class _Fault(Exception):
+            class _Fault(RuntimeError):  # what torch itself raises on a shape or dtype error
                 pass
             rec_ = h.model
             exc = KeyboardInterrupt if op["exc"] == "keyboard" else _Fault
